@@ -179,6 +179,7 @@ Proof.
   unfold space_list_check, retriv. cbn [last_left nodes check_for_list].
   destruct (last_left st) as [l|]; [|intros H; injection H as <-; reflexivity].
   destruct (nth_error (nodes st) l) as [ln|]; [|discriminate].
+  match goal with |- bind ?x _ = _ -> _ => destruct x as [bv| | |] end; cbn [bind]; try discriminate.
   match goal with |- Ok (if ?b then true else c) = _ -> _ => destruct b end;
     intros H; injection H as <-; reflexivity.
 Qed.
